@@ -1,20 +1,18 @@
 use slotted_egraphs::*;
 use verif_harness::langs::T;
 fn main() {
-    let mut eg: EGraph<T> = EGraph::default();
-    let a = eg.add_syn_expr(RecExpr::parse("(f $1 $2)").unwrap());
-    let b = eg.add_syn_expr(RecExpr::parse("(v $2)").unwrap());
-    #[cfg(feature = "explanations")]
-    eg.union_justified(&a, &b, Some("fv".to_string()));
-    #[cfg(not(feature = "explanations"))]
-    eg.union(&a, &b);
-    let args: Vec<String> = std::env::args().skip(1).collect();
-    let mut hs = Vec::new();
-    for t in &args { let h = eg.add_syn_expr(RecExpr::parse(t).unwrap()); println!("added {t} -> {h:?}"); hs.push(h); }
-    println!("eq: {}", eg.eq(&hs[0], &hs[1]));
     #[cfg(feature = "explanations")]
     {
-        let p = eg.explain_equivalence(RecExpr::parse(&args[0]).unwrap(), RecExpr::parse(&args[1]).unwrap());
-        println!("{}", p.to_string(&eg));
+        let mut eg: EGraph<T> = EGraph::default();
+        let args: Vec<String> = std::env::args().skip(1).collect();
+        // pairs of terms: union_justified(a, b)
+        for (k, w) in args.chunks(2).enumerate() {
+            let a = eg.add_syn_expr(RecExpr::parse(&w[0]).unwrap());
+            let b = eg.add_syn_expr(RecExpr::parse(&w[1]).unwrap());
+            eg.union_justified(&a, &b, Some(format!("eq{k}")));
+            println!("union {} = {} done", w[0], w[1]);
+        }
+        eg.check();
+        println!("ok");
     }
 }
